@@ -858,6 +858,45 @@ func runCHDefer(c *core.Ctx) {
 
 func runMBLen(c *core.Ctx) {
 	e := EnvOf(c.Prog)
+	// the length view asks the mailbox every time it is read: what it returns is the result of a length() call made by
+	// this very read, never a value remembered from an earlier read of the section (the section may have consumed since)
+	if fn := mustMethod(c, e, an.PkgResources, "mailboxesLocalLength", "ReadValue"); fn != nil {
+		info := fn.Pkg.Info
+		bad := ""
+		n := 0
+		ast.Inspect(fn.Body(), func(m ast.Node) bool {
+			if _, isLit := m.(*ast.FuncLit); isLit {
+				return false
+			}
+			r, ok := m.(*ast.ReturnStmt)
+			if !ok || len(r.Results) != 2 {
+				return true
+			}
+			if !isNilIdent(info, r.Results[1]) {
+				return true // an error return carries no length
+			}
+			n++
+			call, isCall := an.Unparen(an.ResolveLocal(info, fn.Body(), r.Results[0])).(*ast.CallExpr)
+			fresh := false
+			if isCall {
+				if sel, isSel := an.Unparen(call.Fun).(*ast.SelectorExpr); isSel && sel.Sel.Name == "length" {
+					if f := an.SelectedField(info, sel.X); f != nil && f.Name() == "mailbox" {
+						fresh = true
+					}
+				}
+			}
+			if !fresh {
+				bad = an.ExprString(r.Results[0])
+			}
+			return true
+		})
+		if n == 0 {
+			c.Lost("mailboxesLocalLength.ReadValue:asks-the-mailbox", "no successful return found")
+		} else {
+			c.Check(bad == "", "mailboxesLocalLength.ReadValue:asks-the-mailbox", fn.Pos(), "every read returns mailbox.length() as computed by this read",
+				"the length view returns "+bad+" instead of a length computed by this read: after the section consumed a message the reported length is stale and exceeds what is pending")
+		}
+	}
 	for _, typ := range []string{"tcpMailboxesLocal", "relaxedMailboxesLocal"} {
 		t := mustType(c, e, an.PkgResources, typ)
 		fn := mustMethod(c, e, an.PkgResources, typ, "length")
